@@ -128,13 +128,13 @@ def int_switch_as_compare(b, sb, e, vals):
     return None
 
 
-def classify_value_as_guard(ctx, b, e, taken_true):
+def classify_value_as_guard(ctx, b, e, taken_true, at_bb=None):
     """What does branching on value `e` (taken when true / false) mean for a
     release?  -> (kind, detail) or None."""
     m, fl = ctx.model, ctx.model.flow
     e = strip_refs(e)
     if e.kind == "unop" and e[1] == "Not":
-        return classify_value_as_guard(ctx, b, e[2], not taken_true)
+        return classify_value_as_guard(ctx, b, e[2], not taken_true, at_bb)
     if e.kind == "binop" and e[1] in ("Eq", "Ne") and (is_const(e[3], 1) or is_const(e[2], 1)):
         # `counter.fetch_sub(1, ..) == 1`: the atomic countdown just reached 0
         fs = strip_refs(e[2] if is_const(e[3], 1) else e[3])
@@ -162,13 +162,16 @@ def classify_value_as_guard(ctx, b, e, taken_true):
         xs = strip_refs(x)
         srcs = sources_of_expr(ctx, b, xs, mode="taint")
         has_nc = any(s.kind == "alloc" and s[4] in NODE_COUNT_FNS for s in srcs)
-        has_sub = any(s.kind == "op" and s[4] in ("Sub", "SubWithOverflow") for s in srcs)
+        has_sub = any(s.kind == "op" and s[4] in ("Sub", "SubWithOverflow") and
+                      not (at_bb is not None and s[1] == b.id and s[2] != at_bb and at_bb not in b.reachable(s[2])) for s in srcs)
         if has_nc and not has_sub:
             ncs = {s for s in srcs if s.kind == "alloc" and s[4] in NODE_COUNT_FNS}
             for kind_, bb_, si_, st_ in [d for ds in get_defs(b).through.values() for d in ds]:
                 from analysis import expr_rvalue
                 v = expr_rvalue(b, st_["rv"], 0, (bb_, si_))
                 if v.kind == "binop" and v[1] == "Sub":
+                    if at_bb is not None and bb_ != at_bb and at_bb not in b.reachable(bb_):
+                        continue        # a decrement that can only run after this test (the empty-graph check ahead of the loop)
                     ps = fl.sources_local(b, st_["pl"]["l"], (), "taint")
                     if ncs & set(ps):
                         has_sub = True
@@ -251,7 +254,7 @@ def classify_release_guard(ctx, b, bb, with_params=False):
             e = strip_refs(switch_expr(b, sb))
             taken_true = "otherwise" in vals and "0" not in vals
             taken_false = "0" in vals and "otherwise" not in vals
-            c = classify_value_as_guard(ctx, b, e, taken_true) if (taken_true or taken_false) else None
+            c = classify_value_as_guard(ctx, b, e, taken_true, sb) if (taken_true or taken_false) else None
             ks.append(c)
         if arms and any(c is not None and c[0] in ("EMPTY", "FINISHED", "INTERRUPTED") for c in ks):
             # an unclassified disjunct only adds releases; the obligations of the classified ones are still met
@@ -283,7 +286,7 @@ def _classify_release_guard(ctx, b, bb):
             taken_false = not taken_true
         if not (taken_true or taken_false):
             continue
-        r = classify_value_as_guard(ctx, b, e, taken_true)
+        r = classify_value_as_guard(ctx, b, e, taken_true, sb)
         if r is None:
             continue
         if r[0] == "PARAM":
@@ -942,6 +945,19 @@ def T3(ctx, rule="T3", families=None, want_stream=None):
 # ---------------------------------------------------------------------------
 # U1 / U2 (C05)
 
+def spine_downcasts(e):
+    """variant names along the projection spine of an expression (`((x as Ready).0 as Some).0` -> [Ready, Some]), not those
+    occurring inside the operands of the calls it is built from"""
+    out = []
+    e = strip_refs(e)
+    while isinstance(e, E) and e.kind in ("field", "downcast", "deref", "ref"):
+        if e.kind == "downcast":
+            out.append(e[2])
+        e = strip_refs(e[1])
+    out.reverse()
+    return out
+
+
 def U1(ctx, rule="U1"):
     """end-of-stream bookkeeping of the stream family's poll closure"""
     m, fb, fl = ctx.model, ctx.fb, ctx.model.flow
@@ -1010,7 +1026,7 @@ def U1(ctx, rule="U1"):
                 de = switch_expr(cb, sb)
                 if de.kind == "discr":
                     inner = strip_refs(de[1])
-                    names = [x[2] for x in walk_expr(inner) if x.kind == "downcast"]
+                    names = spine_downcasts(inner)
                     if names == ["Ready"] and vals == frozenset(["1"]):
                         # ... of the poll of the READY receiver (the value the stream yields), not of the done receiver
                         rs, _ = m.roles_of_sources(sources_of_expr(ctx, cb, inner, mode="taint"), half=1)
@@ -1063,7 +1079,7 @@ def U1(ctx, rule="U1"):
                         # `match ready_rx.poll_recv(cx) { Ready(None) => Ready(None), .. }`: the READY channel's own end-of-stream
                         # handed on (its senders are released only at the countdown's end / for the empty graph: U1.*-FINISHED/EMPTY)
                         inner = strip_refs(de[1])
-                        names = [x[2] for x in walk_expr(inner) if x.kind == "downcast"]
+                        names = spine_downcasts(inner)
                         if names in (["Ready"], []) and "1" not in vals:
                             rs, _ = m.roles_of_sources(sources_of_expr(ctx, gb, inner, mode="taint"), half=1)
                             if rs == {"READY"} and any(x.kind == "call" and x[1] in RECV_FNS for x in walk_expr(inner)):
